@@ -286,6 +286,8 @@ pub fn run(_params: &Params) {
   }
   let _ = ledger.publish(&mut adv, clock.now);
 
+  ctx::set_clock(clock.now);
+  let kb_default_opts = KeyBindingJWTValidationOptions::default();
   let mut issued: Vec<Issued> = Vec::new();
   let mut old_kbs: Vec<String> = Vec::new();
   let mut nontrivial = false;
@@ -703,7 +705,13 @@ pub fn run(_params: &Params) {
     let holder_for_doc = if supply_other { &holders[(hi + 1) % holders.len()] } else { holder };
     let Some((_v, Ok(holder_doc))) = ledger.resolve(&holder_for_doc.did, if supply_other { 0 } else { lag }) else { continue };
     let holder_json = serde_json::to_value(&holder_doc).unwrap();
-    let mut ko = KeyBindingJWTValidationOptions::default();
+    // options start from a fresh default value or from the verifier's long-lived one (built at the start of the run)
+    let mut ko = if ctx::choose(2) == 0 {
+      ctx::stat("probe.options_value_built_earlier");
+      kb_default_opts.clone()
+    } else {
+      KeyBindingJWTValidationOptions::default()
+    };
     let opt_nonce: Option<String> = match ctx::weighted(&[5, 1, 1]) {
       0 => Some(nonce.clone()),
       1 => Some("another-session".to_owned()),
@@ -736,6 +744,17 @@ pub fn run(_params: &Params) {
     let mut jo = JwsVerificationOptions::default();
     if let Some(s) = scope {
       jo = jo.method_scope(to_scope(s));
+    }
+    // the verifier may name the method itself instead of trusting the kid (the scope still applies to it)
+    let opt_method_id: Option<String> = match ctx::weighted(&[8, 2, 1, 1]) {
+      0 => None,
+      1 => Some(kb_kid.clone()),
+      2 => Some(format!("{}#{}", holder.did, if kb_frag == "kb" { "alt" } else { "kb" })),
+      _ => Some("did:sim:adversary0#adv".to_owned()),
+    };
+    if let Some(m) = &opt_method_id {
+      ctx::stat("probe.kb_method_id_configured");
+      jo = jo.method_id(identity_did::DIDUrl::parse(m).unwrap());
     }
     ko = ko.jws_verifier_options(jo);
     let res = ctx::catch(|| validator.validate_key_binding_jwt(&received, &holder_doc, &ko));
@@ -788,7 +807,7 @@ pub fn run(_params: &Params) {
                 label = "typ";
                 ctx::stat("false.kb.typ");
               } else {
-                let kid = p.header.get("kid").and_then(|k| k.as_str()).unwrap_or("");
+                let kid = opt_method_id.as_deref().unwrap_or_else(|| p.header.get("kid").and_then(|k| k.as_str()).unwrap_or(""));
                 let method = if DIDUrl::parse(kid).is_ok() { doc_method(&holder_json, kid, scope) } else { None };
                 match method {
                   None => {
